@@ -412,7 +412,7 @@ func (f *Frame) applyContract(ins ssa.Instruction, c *Contract, ct *callTarget, 
 			f.addHyp(st.pc, t)
 			continue
 		}
-		if hasTag(r.Tags, "config") || hasTag(r.Tags, "ghostdef") || hasTag(r.Tags, "inv") {
+		if hasTag(r.Tags, "config") || hasTag(r.Tags, "ghostdef") || hasTag(r.Tags, "inv") || hasTag(r.Tags, "obs") {
 			// configuration invariant: assumed at the callee, not checked at call sites (listed in evidence)
 			f.root.notes["unchecked configuration precondition of "+c.Func+": "+r.Text] = true
 			f.addHyp(st.pc, t)
@@ -743,6 +743,7 @@ func init() {
 			return r
 		},
 		"github.com/yandex/mysync/internal/util.RunParallel": runParallelModel,
+		"github.com/yandex/mysync/internal/util.FilterStrings": filterStringsModel,
 		"math.Floor": func(f *Frame, ins ssa.Instruction, call *ssa.CallCommon, ct *callTarget, st *State) Value {
 			return mk("to_real", sortReal, mk("to_int", sortInt, T(f, ct, st, 0)))
 		},
@@ -913,7 +914,7 @@ func (f *Frame) caseSplitCall(ins ssa.Instruction, call *ssa.CallCommon, ct *cal
 				f.eng.specError(c.Func, r, err)
 				continue
 			}
-			if hasTag(r.Tags, "config") || hasTag(r.Tags, "ghostdef") || hasTag(r.Tags, "inv") {
+			if hasTag(r.Tags, "config") || hasTag(r.Tags, "ghostdef") || hasTag(r.Tags, "inv") || hasTag(r.Tags, "obs") {
 				f.addHyp(tAnd(st.pc, is), t)
 				continue
 			}
@@ -1163,4 +1164,41 @@ func (f *Frame) appendLemmas(s, t, res *Term, n int64) {
 	_ = eqs
 	f.root.hyps = append(f.root.hyps,
 		mkForallPat([]BVar{bx2}, tImp(C(res, x2), tOr(append([]*Term{C(s, x2)}, eqs2...)...)), []*Term{C(res, x2)}))
+}
+
+// filterStringsModel: util.FilterStrings(heap, cond) keeps exactly the elements satisfying cond (order kept; the
+// model states membership and length only). The predicate is obtained by running the closure body on a bound
+// element. Trusted model of a 9-line helper.
+func filterStringsModel(f *Frame, ins ssa.Instruction, call *ssa.CallCommon, ct *callTarget, st *State) Value {
+	f.root.notes["assumed contract: util.FilterStrings (result members = members of the input satisfying the predicate)"] = true
+	heap := f.asTerm(ct.args[0], ct.argTypes[0], st)
+	var clo *Closure
+	switch x := ct.args[1].(type) {
+	case *Closure:
+		clo = x
+	case *Term:
+		clo = f.eng.closureByTerm[x]
+	}
+	res := fresh("filtered", heap.Sort)
+	f.addHyp(st.pc, tAnd(tGe(slLen(res), tInt(0)), tLe(slLen(res), slLen(heap))))
+	if clo == nil || len(clo.Fn.Blocks) == 0 {
+		f.note("FilterStrings with an unknown predicate: result members unconstrained (subset only)")
+		bx, x := freshBVar("x", sortStr)
+		f.root.hyps = append(f.root.hyps, tImp(st.pc, mkQuant("forall", []BVar{bx}, tImp(containsTerm(res, x), containsTerm(heap, x)))))
+		return res
+	}
+	bx, x := freshBVar("x", sortStr)
+	sub := f.eng.newFrame(clo.Fn, f)
+	probe := st.clone()
+	exit, results := sub.run(probe, []Value{x}, clo.Bindings)
+	if exit == nil || len(results) != 1 {
+		f.note("FilterStrings predicate could not be evaluated symbolically")
+		return res
+	}
+	pred, _ := results[0].(*Term)
+	if pred == nil || pred.Sort != sortBool {
+		return res
+	}
+	f.root.hyps = append(f.root.hyps, tImp(st.pc, mkQuant("forall", []BVar{bx}, tEq(containsTerm(res, x), tAnd(containsTerm(heap, x), pred)))))
+	return res
 }
